@@ -354,10 +354,10 @@ Print Assumptions C16_truthy_guard_would_break_concat_example.
    A v4 data set is a LostMap.cfg c (the chunkings of correlator_data, flags, weights, weights_channel - ANY positive
    chunk sizes, drawn independently per array, boundaries anywhere -, the set of chunks absent from the store, the
    stored flag bytes, a preselected window) and the set `calok` of elements whose calibration correction is valid.
-   cfg_ok c p (Proofs/C06P.v): positive chunks, the arrays agree on the length of each axis they have, p is an element
+   cfg_ok c p (Proofs/FlagsLostBaseP.v, = C06's): positive chunks, the arrays agree on the length of each axis they have, p is an element
    of the loaded window.  lx_raw is d.raw_flags at p: the lost map of ChunkStoreVisFlagsWeights (intersect_chunks +
    _apply_data_lost per flags chunk), apply_flags_correction and the regenerated indexer chain. *)
-From KV Require Import Model.Prune Model.LostMap Model.FlagsLost Proofs.C06P Proofs.FlagsLostP.
+From KV Require Import Model.Prune Model.LostMap Model.FlagsLost Proofs.FlagsLostBaseP Proofs.FlagsLostP.
 
 (* raw_flags = stored byte (nothing where the flags chunk itself is absent) | data_lost exactly on the elements covered by
    an absent chunk of ANY of the four arrays (each in its own chunking) | postproc exactly where the correction is
